@@ -132,7 +132,7 @@ Definition request_death (p : ppl) (us : list nat) : ppl :=
   mkPpl (auids p) (uidarr p) (slotarr p) (parent p) (alive p)
         (upd_raw (ti_dead p) (set_const (raw (ti_dead p)) us (inject_Z (ti p))) (used (ti_dead p))) (others p) (ti p).
 
-(* step_die: (ti_dead <= ti).uids over ACTIVE agents; alive[those] = False.  NaN <= x is False. *)
+(* step_die: (ti_dead <= ti).uids over ACTIVE agents; alive[those] = False; ti_dead[those] = ti (the step at which the death is carried out).  NaN <= x is False. *)
 Definition due (p : ppl) (u : nat) : bool :=
   match get_raw (raw (ti_dead p)) u with
   | V q => andb (negb (Qeq_bool q (nanv (ti_dead p)))) (death_due_gen q (inject_Z (ti p)))
@@ -140,7 +140,8 @@ Definition due (p : ppl) (u : nat) : bool :=
 Definition step_die (p : ppl) : ppl * list nat :=
   let d := filter (due p) (auids p) in
   (mkPpl (auids p) (uidarr p) (slotarr p) (parent p)
-         (upd_raw (alive p) (set_const (raw (alive p)) d 0) (used (alive p))) (ti_dead p) (others p) (ti p), d).
+         (upd_raw (alive p) (set_const (raw (alive p)) d 0) (used (alive p)))
+         (upd_raw (ti_dead p) (set_const (raw (ti_dead p)) d (inject_Z (ti p))) (used (ti_dead p))) (others p) (ti p), d).
 
 (* remove_dead: auids := auids minus dead (dead = ~alive over active agents) *)
 Definition is_alive (p : ppl) (u : nat) : bool := qtrue (get_raw (raw (alive p)) u).
@@ -184,3 +185,7 @@ Definition pstep (p : ppl) (o : pop) : ppl :=
   | PRegister d nq v => register p d nq v
   end.
 Definition prun (p : ppl) (ops : list pop) : ppl := fold_left pstep ops p.
+
+(* People.update_results: new_deaths[ti] = count_nonzero(ti_dead == ti) over the active agents *)
+Definition recorded_new_deaths (p : ppl) : nat :=
+  length (filter (fun u => match get_raw (raw (ti_dead p)) u with V q => Qeq_bool q (inject_Z (ti p)) | G => false end) (auids p)).
